@@ -517,10 +517,8 @@ class FJParser(sly.Parser):
         error_occurred = True
 
         if token is None:
-            error_string = (
-                f'Syntax Error in {get_position(self.line_position(None))}. '
-                f'Maybe missing }} or {{ before this line?'
-            )
+            # the input ended in the middle of a statement/block - there is no token (nor a line) to point at
+            error_string = f'Syntax Error at the end of file {curr_file}. Maybe missing }} or {{ before the end of the file?'
         else:
             error_string = f'Syntax Error in {get_position(token.lineno)}, token=("{token.type}", {token.value})'
 
